@@ -190,10 +190,13 @@ SPEC = dict(
                 "`raft_step` (all decision rules of raft.rs live there). Theorems, for ALL executions (any sequence of raft_step "
                 "calls by any members on any batches of previously sent messages - loss, duplication, reordering, fail-stop - "
                 "any timers, any requests): election safety (<= 1 leader per term over the whole history), one vote per term, "
-                "leaders hold majority votes; proved on micro-steps and transferred to whole raft_step calls by a refinement "
-                "lemma. Log matching and committed-prefix agreement are stated (`...Statement`) and only partly proved "
-                "(`_partial` theorems, gap named in Props/C40.lean). Tie: (a) the real `raft_step` is driven by a scripted "
-                "adversarial network (bounded random schedules, 1-5 members) and every call's outputs + resulting state are "
+                "leaders hold majority votes, LOG MATCHING (same term at a position in two logs => identical prefixes, via ghost "
+                "per-term canonical logs through the truncate/skip/append loop), index-consistency of logs; proved on "
+                "micro-steps and transferred to whole raft_step calls by a refinement lemma. Committed-prefix agreement "
+                "(state machine safety) is stated (`RaftCommittedPrefixAgreementStatement`) and only partly proved "
+                "(`raft_committed_prefix_agreement_partial`: commit <= log length, emitted <= commit); the missing lemma is "
+                "leader completeness. Tie: (a) the real `raft_step` is driven by a scripted "
+                "adversarial network (bounded random schedules incl. partitions, crashes, a scripted figure-8 prefix; 1-5 members) and every call's outputs + resulting state are "
                 "diffed against the compiled model, which also checks trace inclusion of the network; (b) the real Hydro program "
                 "`raft(..)` is compiled by the production simulator backend and run under seed-derived schedules, a cfg-guarded "
                 "hook logs every protocol step, which is diffed the same way; (c) the property itself (gap-free, pairwise "
